@@ -23,6 +23,11 @@ def setup_path():
     if REPO_SRC in sys.path:
         sys.path.remove(REPO_SRC)
     sys.path.insert(0, REPO_SRC)
+    want = os.path.realpath(os.path.join(REPO_SRC, "pyab_experiment"))
+    have = sys.modules.get("pyab_experiment")
+    if have is not None and os.path.realpath(os.path.dirname(getattr(have, "__file__", "") or "")) == want:
+        return      # already imported from the right tree: re-importing would re-run class bodies (pydantic validators
+                    # refuse to be registered twice)
     for k in [k for k in sys.modules if k == "pyab_experiment" or k.startswith("pyab_experiment.")]:
         del sys.modules[k]
     import pyab_experiment
